@@ -161,6 +161,7 @@ class Schemas:
                 cands.setdefault(typ, {})[t.get_id()] = t
         used = set()
         out = []
+        truncated_any = False
         for rnd in range(rounds):
             new = []
             newc = []
@@ -168,6 +169,16 @@ class Schemas:
                 pools = [list(cands.get(t, {}).values()) for t in types]
                 if any(not p for p in pools):
                     continue
+                # cap the number of instances per schema (fewer instances = weaker hypotheses: sound)
+                size = 1
+                for p_ in pools:
+                    size *= len(p_)
+                while size > 8000:
+                    big = max(range(len(pools)), key=lambda k: len(pools[k]))
+                    size //= len(pools[big])
+                    pools[big] = pools[big][:max(1, len(pools[big]) // 2)]
+                    size *= len(pools[big])
+                    truncated_any = True
                 for tup in itertools.product(*pools):
                     key = (si,) + tuple(x.get_id() for x in tup)
                     if key in used:
